@@ -372,3 +372,45 @@ def impl_fns(prog, self_adt_id, trait_re=None, crate=None):
         if trait_re is None or (tr and re.search(trait_re, tr)) or (trait_re == "" and not tr):
             out.append(f)
     return out
+
+
+def failure_branch_taken(path, prim_re):
+    """Did the path take the failure branch of a checked primitive matching prim_re?
+    Recognised: `prim(..).ok_or(e)?` / `prim(..)?` (Break edge of the Try switch) and `let Some(x) = prim(..) else {..}` /
+    `match prim(..)` (None edge of the discriminant switch). Returns True / False / None (primitive not branched on)."""
+    res = None
+    for cond, lab, ty in path["conds"]:
+        if cond.k != "discr" or not re.search(prim_re, str(cond.a[0])):
+            continue
+        inner = cond.a[0]
+        if inner.k == "trybranch":
+            fail = (lab == 1)
+        else:
+            # Option discriminant: 0 = None, 1 = Some
+            fail = (lab == 0) if isinstance(lab, int) else None
+            if isinstance(lab, tuple):
+                fail = 1 in lab[1]  # otherwise-edge of a switch that lists Some => None
+        if fail is None:
+            continue
+        res = bool(fail) or bool(res)
+    return res
+
+
+def delta_semantics(fn, pure_re, prim_re=r"u128::checked_add_signed\("):
+    """Semantic signature of an `apply_delta_*` method, independent of how the Option is unwrapped:
+    set of (is_pure on the path, 'ok', written field, primitive applied to (field, delta)) and (is_pure, 'err-on-failure')."""
+    from .model import classify_result
+    sig = set()
+    for p in paths(fn):
+        pure = truth_on_path(p, pure_re)
+        kind = classify_result(p["ret"]) if p["ret"] is not None else "unknown"
+        failed = failure_branch_taken(p, prim_re)
+        if kind == "err":
+            sig.add((pure, "err-on-failure" if failed else "err-other"))
+            continue
+        if failed:
+            sig.add((pure, "ok-despite-failure"))
+        for s in stores_on_path(fn, p["blocks"]):
+            prims = sorted("%s(%s)" % (c.a[0], ", ".join(str(x) for x in c.a[1])) for c in s["value"].calls(r"(checked|wrapping|saturating|overflowing)_"))
+            sig.add((pure, "ok", s["dest"], tuple(prims)))
+    return sig
